@@ -74,7 +74,10 @@ FailQ(e) ==
   LET w == WidthV(e.A)
       M == MemV(e.A)
       exact == e.mode = "si"
-      EvOK(x) == IF exact THEN EvalOK(w, M, x[1], x[2]) ELSE EvalWeakOK(w, M, x[1], x[2])
+      \* mode "multi": a value set with several regions; equal offsets of different regions are different values
+      EvOK(x) == IF exact THEN EvalOK(w, M, x[1], x[2])
+                 ELSE IF e.mode = "multi" THEN Len(x[2]) <= x[1] /\ \A i \in 1..Len(x[2]) : Mod(x[2][i], P2(w)) \in M
+                 ELSE EvalWeakOK(w, M, x[1], x[2])
   IN
   OperandBad(e, <<e.A>>) \cup
   (IF Len(e.qexc) > 0 THEN {"qexc"} ELSE {}) \cup
@@ -145,9 +148,10 @@ HasDiv(f) == \E i \in 1..Len(f) : f[i][1] \in DivOps
 RunZ(f, hd, a) == LET r == Run(f, a) IN <<r[1][1], hd /\ \E j \in 1..Len(r[2]) : IsZero(r[2][j])>>
 
 FailConv(e) ==
-  IF e.exc # "" THEN {"exc"}
-  ELSE LET f == Flat(e.t) hd == HasDiv(f) A == AsgsOf(e.vars) IN
-       IF e.rt = "bool" THEN
+  LET f == Flat(e.t) hd == HasDiv(f) A == AsgsOf(e.vars) IN
+  \* an exception is justified only by a division whose divisor can be zero
+  IF e.exc # "" THEN (IF hd /\ \E a \in A : RunZ(f, hd, a)[2] THEN {} ELSE {"exc"})
+  ELSE IF e.rt = "bool" THEN
           LET T == Truth(e.rb) IN
           IF \A a \in A : LET r == RunZ(f, hd, a) IN r[2] \/ (r[1] = T1) \in T THEN {} ELSE {"unsound"}
        ELSE IF ~SameWidth(e.R, Width(e.t)) THEN {"width"}
